@@ -31,7 +31,7 @@ def run(tier, seed):
     chk = gv.Check(PROP, tier, seed, level="proof")
     _merge_fragment(chk)
     proof = gv.proof_status(PROP, REQ_PROPS)
-    ncases = 400 if tier == "quick" else 4000
+    ncases = gv.scaled(PROP, tier, 400, 4000, chk)
     ok, out, binp = gv.cargo_build("c16")
     if not ok:
         chk.violation("build", {"what": "the harness no longer builds against /repo's working tree", "log": out[-3000:],
